@@ -31,6 +31,7 @@ import (
 	"net/http"
 	"net/netip"
 	"os"
+	"path/filepath"
 	"regexp"
 	"sort"
 	"strings"
@@ -1361,12 +1362,225 @@ func c01RemovedMidRequest(run *vfRun, sh *c01Shared) {
 	}
 }
 
+// c01ForwardedSpoof: reverse-proxy mode with a trusted network. The client address is what the CONFIGURED client-IP
+// header says, nothing else: a credential-less request from an untrusted peer that carries a trusted address in any
+// OTHER forwarding header (with the configured header absent or naming an untrusted client) is not entitled.
+// One instance per configurable header, plus one without reverse-proxy mode where no header counts at all.
+func c01ForwardedSpoof(run *vfRun, sh *c01Shared) {
+	configurable := []string{"X-Real-IP", "X-Forwarded-For", "X-ProxyUser-IP", "X-Envoy-External-Address", "CF-Connecting-IP"}
+	const trusted, untrusted = "10.1.2.3", "198.51.100.7"
+	type inst struct {
+		configured string // "" = reverse-proxy mode off
+		p          *vfProxy
+	}
+	var insts []inst
+	for _, h := range append([]string{""}, configurable...) {
+		flags := []string{"--trusted-ip=10.0.0.0/8", "--upstream=" + sh.W.Up.URL() + "/", "--upstream=" + sh.UpB.URL() + "/b/"}
+		if h != "" {
+			flags = append(flags, "--reverse-proxy=true", "--real-client-ip-header="+h)
+		}
+		p, err := sh.W.NewProxy(flags...)
+		if err != nil {
+			run.T.Fatalf("c01: reverse-proxy instance (%s): %v", h, err)
+		}
+		insts = append(insts, inst{h, p})
+	}
+	type job struct {
+		in      inst
+		headers [][2]string
+		label   string
+		bypass  bool // reference: the configured header names a trusted client
+		method  string
+		target  string
+	}
+	var jobs []job
+	for _, in := range insts {
+		var cases []job
+		for _, own := range []string{"absent", "untrusted", "untrusted-then-trusted"} {
+			var base [][2]string
+			if in.configured != "" {
+				switch own {
+				case "untrusted":
+					base = [][2]string{{in.configured, untrusted}}
+				case "untrusted-then-trusted":
+					base = [][2]string{{in.configured, untrusted + ", " + trusted}}
+				}
+			} else if own != "absent" {
+				continue
+			}
+			var all [][2]string
+			for _, other := range append(append([]string{}, configurable...), "Forwarded", "X-Forwarded-Host", "X-Client-IP", "True-Client-IP") {
+				if other == in.configured {
+					continue
+				}
+				for _, val := range []string{trusted, trusted + ", " + untrusted, trusted + ":4711"} {
+					v := val
+					if other == "Forwarded" {
+						v = "for=" + val + ";proto=http"
+					}
+					cases = append(cases, job{headers: append(append([][2]string{}, base...), [2]string{other, v}), label: "configured " + own + ", " + other + " trusted"})
+				}
+				if other == "Forwarded" {
+					all = append(all, [2]string{other, "for=" + trusted})
+				} else {
+					all = append(all, [2]string{other, trusted})
+				}
+			}
+			cases = append(cases, job{headers: append(append([][2]string{}, base...), all...), label: "configured " + own + ", every other header trusted"})
+			cases = append(cases, job{headers: base, label: "configured " + own + ", no other header"})
+		}
+		if in.configured != "" {
+			cases = append(cases, job{headers: [][2]string{{in.configured, trusted}}, label: "configured header trusted", bypass: true},
+				job{headers: [][2]string{{in.configured, trusted + ", " + untrusted}}, label: "configured header trusted (list)", bypass: true})
+		}
+		for _, c := range cases {
+			for _, mt := range [][2]string{{"GET", "/x"}, {"POST", "/b/y"}, {"GET", "/oauth2/auth"}, {"GET", "/oauth2/userinfo"}} {
+				c.in, c.method, c.target = in, mt[0], mt[1]
+				jobs = append(jobs, c)
+			}
+		}
+	}
+	vfParallel(len(jobs), 16, func(i int) {
+		j := jobs[i]
+		id := fmt.Sprintf("c01fwd-%d", i)
+		req := vfNewReq(j.method, j.target, "X-Vf-Id", id).From(c01Untrusted)
+		for _, h := range j.headers {
+			req.H(h[0], h[1])
+		}
+		if i%3 == 1 {
+			req.Cookie(c01CookieName, "garbage|1|x")
+		}
+		r := j.in.p.Do(req)
+		hits := append(sh.W.Up.FindHit(id), sh.UpB.FindHit(id)...)
+		class := c01EndpointClass(j.target)
+		served := len(hits) > 0 || (class == "auth" && r.Code == 202)
+		mode := "reverse-proxy, configured header " + j.in.configured
+		if j.in.configured == "" {
+			mode = "reverse-proxy mode off"
+		}
+		cellMode := "rp-on"
+		if j.in.configured == "" {
+			cellMode = "rp-off"
+		}
+		run.Eval(fmt.Sprintf("forwarded-spoof|%s|%s|bypass=%v", cellMode, class, j.bypass))
+		run.Count("forwarded_header_requests", 1)
+		wit := map[string]interface{}{"flags": j.in.p.Flags, "request": req, "case": j.label, "reference_bypass": j.bypass, "status": r.Code, "upstream_hits": hits}
+		switch {
+		case r.Panic != "":
+			c01Violation(run, "c01:panic", "request handling panicked: "+vfTrunc(r.Panic, 200), wit)
+		case j.bypass:
+			if served || (class == "userinfo" && r.Code == 200) {
+				run.Count("served_by_bypass_configured_client_ip_header", 1)
+			} else {
+				run.Count("bypass_not_served", 1)
+			}
+		case served || (class == "userinfo" && r.Code == 200):
+			c01Violation(run, "c01:served-without-entitlement", fmt.Sprintf("%s: %s %s without credential from untrusted peer %s was served (status %d) because of forwarding headers that are not the configured one [%s]: %v",
+				mode, j.method, j.target, c01Untrusted, r.Code, j.label, j.headers), wit)
+		case r.Code != 401 && r.Code != 403:
+			c01Violation(run, "c01:refusal-shape", fmt.Sprintf("%s: refused with status %d [%s]", mode, r.Code, j.label), wit)
+		default:
+			run.Count("forwarded_header_spoof_refused", 1)
+		}
+	})
+}
+
+// c01SymlinkedHtpasswd: the htpasswd file behind a symlink whose target is swapped on update (Kubernetes Secret layout:
+// <dir>/htpasswd -> ..data/htpasswd, ..data -> ..rev-N/, update = new revision + atomic swap of ..data + removal of the
+// old revision). After the swap the new password must start to work (bounded poll, 4 s) and the old one must be dead.
+// Two independent instances: never reloaded in both = violation, in one = inconclusive.
+func c01SymlinkedHtpasswd(run *vfRun, sh *c01Shared) {
+	must := func(err error) {
+		if err != nil {
+			run.T.Fatalf("c01: secret volume layout: %v", err)
+		}
+	}
+	bc := func(pw string) string {
+		h, err := bcrypt.GenerateFromPassword([]byte(pw), bcrypt.MinCost)
+		must(err)
+		return string(h)
+	}
+	never := 0
+	var wits []interface{}
+	for hi := 0; hi < 2; hi++ {
+		dir := filepath.Join(sh.W.Dir, fmt.Sprintf("c01-secret-%d", hi))
+		content := func(gen int) string {
+			return "vol-bcrypt:" + bc(fmt.Sprintf("vb-%d", gen)) + "\nvol-sha:" + c01SHA(fmt.Sprintf("vs-%d", gen)) + "\nwitness:" + c01SHA(fmt.Sprintf("w-%d", gen)) + "\n"
+		}
+		must(os.MkdirAll(filepath.Join(dir, "..rev-0"), 0o755))
+		must(os.WriteFile(filepath.Join(dir, "..rev-0", "htpasswd"), []byte(content(0)), 0o600))
+		must(os.Symlink("..rev-0", filepath.Join(dir, "..data")))
+		must(os.Symlink(filepath.Join("..data", "htpasswd"), filepath.Join(dir, "htpasswd")))
+		p, err := sh.W.NewProxy("--htpasswd-file="+filepath.Join(dir, "htpasswd"), "--upstream="+sh.W.Up.URL()+"/", "--upstream="+sh.UpB.URL()+"/b/")
+		if err != nil {
+			run.T.Fatalf("c01: instance with the htpasswd file behind a symlink: %v", err)
+		}
+		served := func(auth, target, id string) (bool, int) {
+			r := p.Do(vfGET(target, "X-Vf-Id", id, "Authorization", auth))
+			return len(sh.W.Up.FindHit(id))+len(sh.UpB.FindHit(id)) > 0 || r.Code == 202, r.Code
+		}
+	updates:
+		for gen := 0; gen < 2; gen++ {
+			for _, u := range [][2]string{{"vol-bcrypt", "vb"}, {"vol-sha", "vs"}} {
+				if ok, code := served(c01Basic(u[0], fmt.Sprintf("%s-%d", u[1], gen)), "/x", fmt.Sprintf("c01vol-%d-%d-%s-cur", hi, gen, u[0])); !ok {
+					c01Violation(run, "c01:valid-credential-not-served", fmt.Sprintf("htpasswd file behind a symlink: user %s with the current password refused (status %d, revision %d)", u[0], code, gen), map[string]interface{}{"flags": p.Flags, "revision": gen})
+				}
+				run.Eval("secret-volume|current-password")
+			}
+			old, cur := fmt.Sprintf("..rev-%d", gen), fmt.Sprintf("..rev-%d", gen+1)
+			must(os.MkdirAll(filepath.Join(dir, cur), 0o755))
+			must(os.WriteFile(filepath.Join(dir, cur, "htpasswd"), []byte(content(gen+1)), 0o600))
+			must(os.Symlink(cur, filepath.Join(dir, "..data_tmp")))
+			must(os.Rename(filepath.Join(dir, "..data_tmp"), filepath.Join(dir, "..data")))
+			must(os.RemoveAll(filepath.Join(dir, old)))
+			visible := false
+			for k := 0; k < 160 && !visible; k++ {
+				if p.Do(vfGET("/oauth2/auth", "Authorization", c01Basic("witness", fmt.Sprintf("w-%d", gen+1)))).Code == 202 {
+					visible = true
+				} else {
+					time.Sleep(25 * time.Millisecond)
+				}
+			}
+			run.Eval(fmt.Sprintf("secret-volume|update-%d", gen+1))
+			if !visible {
+				if gen == 0 {
+					never++
+					wits = append(wits, map[string]interface{}{"flags": p.Flags, "layout": "<dir>/htpasswd -> ..data/htpasswd, ..data -> ..rev-N", "history": "new revision directory, atomic swap of ..data, old revision removed",
+						"probe": "Basic witness:<new password> on /oauth2/auth still refused after 4 s"})
+				} else {
+					run.Inconclusive("second update of a symlinked htpasswd file not visible after 4 s (the first was)")
+				}
+				break updates
+			}
+			run.Count("secret_volume_reloads_observed", 1)
+			for _, u := range [][2]string{{"vol-bcrypt", "vb"}, {"vol-sha", "vs"}} {
+				for k, target := range []string{"/x", "/b/y", "/oauth2/auth"} {
+					ok, code := served(c01Basic(u[0], fmt.Sprintf("%s-%d", u[1], gen)), target, fmt.Sprintf("c01vol-%d-%d-%s-old-%d", hi, gen, u[0], k))
+					run.Eval("secret-volume|rotated-away-password|" + c01EndpointClass(target))
+					if ok {
+						c01Violation(run, "c01:rotated-away-password-still-accepted", fmt.Sprintf("htpasswd file behind a symlink: user %s: the password of revision %d still opens GET %s after the swap to revision %d was observed (status %d)", u[0], gen, target, gen+1, code),
+							map[string]interface{}{"flags": p.Flags, "user": u[0], "revision": gen + 1, "request": "GET " + target, "status": code})
+					} else {
+						run.Count("rotation_old_password_refused", 1)
+					}
+				}
+			}
+		}
+	}
+	switch {
+	case never >= 2:
+		c01Violation(run, "c01:symlinked-htpasswd-never-reloaded", "in 2 independent histories an htpasswd file behind a symlink (Secret volume layout) was not reloaded within 4 s of the atomic swap: rotated-away passwords keep working, new ones are refused", wits)
+	case never == 1:
+		run.Inconclusive("a symlinked htpasswd file was not reloaded within 4 s in one history only (slow reload?)")
+	}
+}
+
 func TestVerif_C01(t *testing.T) {
 	run := vfNewRun(t, "C01", "exploration")
 	run.SetRule("per instance: every credential state (none; real sessions of 5 identities; tampered/stripped/re-dated/random/garbage cookies; expired; other secret; other store; deleted ticket; CSRF value; wrong name; " +
 		"bearer valid/extra issuer/wrong key/expired/wrong aud/wrong iss/alg none/HS256/bad sig/unverified; JWT in Basic; htpasswd valid/invalid/malformed; form login; two credentials at once) " +
 		"x 9 endpoints x GET/POST/OPTIONS/HEAD x Accept x client address (untrusted, trusted, near-miss); instances = pairwise covering array over (store, jwt, htpasswd, rules, error mode, bypass, lifetime) plus seeded full tuples plus static-upstream instances. " +
-		"histories: htpasswd password rotation (bcrypt/SHA entries, atomic rename, every earlier password must be dead once the reload is observed); a Redis session removed by another connection between the first load and the re-load under the refresh lock. " +
+		"histories: htpasswd password rotation (bcrypt/SHA entries, atomic rename, every earlier password must be dead once the reload is observed); a Redis session removed by another connection between the first load and the re-load under the refresh lock; reverse-proxy mode: trusted addresses in every forwarding header other than the configured one; htpasswd file behind a swapped symlink. " +
 		"cell = (credential kind, endpoint class, bypass state, store); non-trivial = credential != none or a bypass rule matched")
 	run.Assume("validity of a credential is the harness's bookkeeping of how it was made; margins around lifetimes are hours",
 		"being served because of a bypass alone is counted, not demanded (C15)", "inotify limit: at most 50 htpasswd instances per process")
@@ -1389,6 +1603,8 @@ func TestVerif_C01(t *testing.T) {
 	t0 := time.Now()
 	c01PasswordRotation(run, sh)
 	c01RemovedMidRequest(run, sh)
+	c01ForwardedSpoof(run, sh)
+	c01SymlinkedHtpasswd(run, sh)
 	run.Count("ms_histories", time.Since(t0).Milliseconds())
 	w.Up.Reset()
 	sh.UpB.Reset()
@@ -1409,7 +1625,7 @@ func TestVerif_C01(t *testing.T) {
 	sh.statMu.Unlock()
 	run.Extra("per_credential_kind", stat)
 	// a run that saw (almost) nothing served or nothing refused proves nothing
-	for _, c := range []string{"served_valid_credential", "refused", "served_by_bypass_route", "served_by_bypass_ip", "served_by_bypass_preflight", "refused_by_redirect_to_idp", "wire_requests", "rotation_old_password_refused", "rotation_current_password_served"} {
+	for _, c := range []string{"served_valid_credential", "refused", "served_by_bypass_route", "served_by_bypass_ip", "served_by_bypass_preflight", "refused_by_redirect_to_idp", "wire_requests", "rotation_old_password_refused", "rotation_current_password_served", "forwarded_header_spoof_refused", "served_by_bypass_configured_client_ip_header"} {
 		if run.Counter(c) < 20 && run.Violations() == 0 {
 			fmt.Printf("INCONCLUSIVE property=C01 reason=counter %s=%d: the workload did not exercise this outcome\n", c, run.Counter(c))
 			t.Fail()
